@@ -65,7 +65,13 @@ STOP = [
     '<std::vec::Vec<',
     'std::vec::from_elem',
     'std::vec::IntoIter::<',
-    '<std::vec::IntoIter<',
+    '<std::vec::IntoIter<*> as std::iter::Iterator>::next*',
+    '<std::vec::IntoIter<*> as std::iter::Iterator>::size_hint*',
+    '<std::vec::IntoIter<*> as std::iter::Iterator>::fold*',
+    '<std::vec::IntoIter<*> as std::iter::DoubleEndedIterator>::next_back*',
+    '<std::vec::IntoIter<*> as std::ops::Drop>::drop',
+    '<std::vec::Vec<*> as std::iter::FromIterator<*>>::from_iter*',
+    '<* as std::iter::Iterator>::collect::<std::vec::Vec<*',
     'std::slice::<impl [',
     'alloc::slice::<impl [',
     'std::io::impls::<impl std::io::Read for &[u8]>::',
@@ -456,6 +462,8 @@ def call_model(ex, fn, args, dest_ty):
             return f(ex, fn, args)
     if name.endswith('DateTime as std::convert::TryFrom<u32>>::try_from'):
         return _datetime_try_from(ex, fn, args)
+    if ' as std::iter::Iterator>::collect::<std::vec::Vec<' in name:
+        return _collect_vec(ex, fn, args)
     if ' as async_std::io::ReadExt>::read_exact' in name:
         return _astd_read_exact(ex, fn, args)
     if ' as tokio::io::AsyncReadExt>::read_exact' in name:
@@ -1357,6 +1365,11 @@ def _ip_from_u32(ex, fn, args):
     return Agg([args[0]])
 
 
+@model('<std::net::Ipv4Addr as std::clone::Clone>::clone')
+def _ip_clone(ex, fn, args):
+    return deref(ex, args[0], Agg)
+
+
 @model('<u32 as std::convert::From<std::net::Ipv4Addr>>::from', 'std::net::Ipv4Addr::to_bits')
 def _ip_to_u32(ex, fn, args):
     v = args[0]
@@ -1446,3 +1459,34 @@ PREFIX_MODELS.append(('<tokio::io::util::read_exact::ReadExact as std::future::F
 PREFIX_MODELS.append(('async_std::io::read::read_exact::', _astd_read_exact))
 PREFIX_MODELS.append(('async_std::io::ReadExt::read_exact', _astd_read_exact))
 PREFIX_MODELS.append(('<async_std::io::read::read_exact::ReadExactFuture as std::future::Future>::poll', _rex_poll))
+
+
+# ---------------------------------------------------------------------------------------- collect() into Vec
+def _collect_vec(ex, fn, args):
+    """iter.collect::<Vec<_>>() / Vec::from_iter(iter) for the shapes that occur: a slice/vec iterator, optionally
+    wrapped in Map { iter, f } (built by the real Iterator::map)"""
+    it = args[0]
+    if isinstance(it, IterV):
+        out = [(elem_ref(it.lst, i) if it.by_ref else it.lst[i]) for i in range(it.a, it.b)]
+        it.a = it.b
+        return VecV(out)
+    if isinstance(it, Agg) and len(it.f) == 2 and isinstance(it.f[0], IterV):
+        inner, f = it.f
+        nested = [v for v in (fn.get('reified') or {}).values()]
+        if isinstance(f, FnPtr):
+            key = f.key
+        elif len(nested) == 1:
+            key = nested[0]['key']
+        else:
+            raise Unsupported('collect(): cannot resolve the mapping function')
+        out = []
+        is_closure = 'closure' in ex.p.fn(key)['name']
+        for i in range(inner.a, inner.b):
+            el = elem_ref(inner.lst, i) if inner.by_ref else inner.lst[i]
+            out.append(ex.call(key, [Ref(Cell(f)), Agg([el])] if is_closure else [el]))
+        inner.a = inner.b
+        return VecV(out)
+    raise Unsupported('collect() of %r' % (it,))
+
+
+PREFIX_MODELS.append(('<std::vec::Vec as std::iter::FromIterator>::from_iter', _collect_vec))
